@@ -22,6 +22,7 @@ from mc import tunables
 
 CMD_TIMEOUT = tunables.ezsp_cmd_timeout()      # tunables the property names ("the operation timeout") but does not fix
 OP_TIMEOUT = tunables.network_ops_timeout()
+UP_TIMEOUT = tunables.network_up_timeout()      # bring-up waits with its own tunable (application.NETWORK_UP_TIMEOUT_S)
 EPS = 1e-9
 
 
@@ -215,7 +216,7 @@ def run_sequence(version, op, events, second=True):
                 elif ended_at != exp_idx:
                     viol.append(f"{label}: ended at event #{ended_at}, expected at event #{exp_idx}")
                 elif exp_kind == "timeout":
-                    want = (t_issue + CMD_TIMEOUT) if t_resp_at_T is None else t_resp_at_T + OP_TIMEOUT
+                    want = (t_issue + CMD_TIMEOUT) if t_resp_at_T is None else t_resp_at_T + (UP_TIMEOUT if op == "ensure" else OP_TIMEOUT)
                     if abs(t_end - want) > EPS:
                         viol.append(f"{label}: timed out at {t_end:.3f}s, expected {want:.3f}s")
                 elif exp_kind == "ok" and op == "scan":
